@@ -1,6 +1,8 @@
 package sim
 
 import (
+	"verifsim/vfs"
+
 	"context"
 	"encoding/json"
 	"fmt"
@@ -22,7 +24,7 @@ import (
 var mapFamily = map[string]string{
 	"F0": `function(doc, meta){ emit(meta.id, null); }`,
 	"F1": `function(doc, meta){ if (doc.v !== undefined) emit(doc.v, meta.id); }`,
-	"F2": `function(doc, meta){ if (doc.w) { for (var i = 0; i < doc.w.length; i++) emit(doc.w[i], doc.v === undefined ? null : doc.v); } }`,
+	"F2": `function(doc, meta){ if (Array.isArray(doc.w)) { for (var i = 0; i < doc.w.length; i++) emit(doc.w[i], doc.v === undefined ? null : doc.v); } }`,
 	"F3": `function(doc, meta){ if (meta.xattrs && meta.xattrs._sync && meta.xattrs._sync.r !== undefined) emit(meta.xattrs._sync.r, (doc.v === undefined) ? null : doc.v); }`,
 	"F4": `function(doc, meta){ emit([doc.s === undefined ? null : doc.s, doc.v === undefined ? null : doc.v], 1); }`,
 }
@@ -200,8 +202,7 @@ func (e *e1) expectedView(coll int, vd viewDef, params map[string]any) ([]vrow, 
 		for _, r := range rows {
 			for _, k := range keys {
 				if cmp(r.Key, k) == 0 {
-					kept = append(kept, r)
-					break
+					kept = append(kept, r) // (once per time the key was asked for)
 				}
 			}
 		}
@@ -388,9 +389,17 @@ func (e *e1) doView(op *Op) *Violation {
 	if _, gl := params["group_level"]; gl && known && vd.Fam != "F4" {
 		return nil // group_level needs array keys (sg-bucket panics otherwise): only meaningful for F4
 	}
+	firedBefore := e.armFaults()
 	res, err := c.View(context.Background(), op.Key, op.Path, params)
+	vfs.ClearFaults()
 	synctest.Wait()
 	e.logf("#%d View(c%d %s/%s %s) -> %d rows err=%v", e.step, op.Coll, op.Key, op.Path, *op.Body, len(res.Rows), err != nil)
+	if kind := e.faultFired(firedBefore); kind != "" && err != nil && ioFailure(&Res{Err: classify(err), ErrText: err.Error()}) {
+		// the query (or the index update it started) was hit by an injected fault and said so: fine;
+		// the next query must be right again
+		e.probe("fault.view-failed:" + kind)
+		return nil
+	}
 	if !known {
 		if err == nil {
 			return e.violate([]string{"C12"}, "view.missing", "step %d: querying the non-existent view %s/%s succeeded", e.step, op.Key, op.Path)
@@ -478,6 +487,7 @@ var queryFamily = map[string]string{
 	"str":    `SELECT json_quote(id) AS id FROM $_keyspace WHERE body->>'$.s' = $s`,
 	"xattr":  `SELECT json_quote(id) AS id, xattrs->'$._sync' AS sync FROM $_keyspace WHERE xattrs->'$._sync' IS NOT NULL`,
 	"count":  `SELECT count(*) AS n FROM $_keyspace`,
+	"xnull":  `SELECT json_quote(id) AS id FROM $_keyspace WHERE xattrs IS NULL`,
 }
 
 func (e *e1) expectedQuery(coll int, kind string, args map[string]any) []string {
@@ -508,6 +518,11 @@ func (e *e1) expectedQuery(coll int, kind string, args map[string]any) []string 
 			if s, ok := doc["s"].(string); ok && s == args["s"].(string) {
 				rows = append(rows, canonKey(map[string]any{"id": id}))
 			}
+		case "xnull":
+			// a document without xattrs looks the same to a query whichever way it came to have none
+			if len(d.X) == 0 {
+				rows = append(rows, canonKey(map[string]any{"id": id}))
+			}
 		case "xattr":
 			if s, ok := d.X["_sync"]; ok {
 				rows = append(rows, canonKey(map[string]any{"id": id, "sync": jsonValue(s)}))
@@ -529,7 +544,13 @@ func (e *e1) doQuery(op *Op) *Violation {
 	}
 	stmt := queryFamily[op.Path]
 	adhoc := op.Amt&1 == 0
+	firedBefore := e.armFaults()
 	iter, err := c.Query(sgbucket.SQLiteLanguage, stmt, args, sgbucket.RequestPlus, adhoc)
+	vfs.ClearFaults()
+	if kind := e.faultFired(firedBefore); kind != "" && err != nil && ioFailure(&Res{Err: classify(err), ErrText: err.Error()}) {
+		e.probe("fault.query-failed:" + kind)
+		return nil
+	}
 	if err != nil {
 		return e.violate([]string{"C19"}, "query.error", "step %d: Query(%s) failed: %v", e.step, op.Path, err)
 	}
